@@ -317,7 +317,9 @@ fn ctor<T: Sub + FromIterator<Bit>>(op: &str, a: &[&str]) -> String {
                 };
                 // on a short input `read_exact` leaves the amount consumed unspecified: only the verdict is compared there
                 if part != whole {
-                    out = format!("{} || reader(step={},interrupted={}): {}", whole, step, interrupt, part);
+                    // report the deviating result in the ordinary output format, so that it is compared (and differs) like any other
+                    eprintln!("read through a reader with step={} interrupted={} gave `{}`, through a slice `{}`", step, interrupt, part, whole);
+                    out = part;
                     break;
                 }
             }
